@@ -297,3 +297,18 @@ Theorem C14_codes_spec : forall (rs : list cregion) (n : nat) (inter : list Z), 
   inter = filter (fun p => negb (existsb (Z.eqb p) (concat (map cr_pos rs)))) (map (fun i => Z.of_nat (S i)) (seq 0 n)).
 Proof. exact codes_spec. Qed.
 Print Assumptions C14_codes_spec.
+(* ... and from the BYTES of a GFF3 file whose rows stand in any order (structural premises only) *)
+Theorem C14_gff_bytes_to_regions_any_order : forall (regs : list (list N * (nat * nat))) (rows : list grow) (hdr : list N) (chunks : list (list N)) (id : list N)
+        (gs : list group) (rs : list cregion) (lines : list (list N * bool)),
+  let genome := degap (map upper (concat chunks)) in
+  let R := map feat_of rows in
+  Forall wf_region regs -> rows <> [] -> Forall wf_row rows ->
+  first_field hdr = Some id -> concat chunks <> [] -> Forall valid_chunk chunks -> Forall ok_line ((62%N :: hdr) :: chunks) ->
+  Forall (fun r => is_cds_row r = true /\ exists i, row_id r = Some i) R -> ids_in_order [] R = map fst gs -> Forall (canonical R) gs ->
+  Forall2 (fun g x => region_from_gfeats genome (snd g) = Ok x) gs rs -> Forall (fun x => cr_name x <> []) rs ->
+  Forall (fun le => ok_line (fst le)) lines ->
+  map fst lines = version_line :: map region_line regs ++ map render_row rows ++ bs "##FASTA" :: (62%N :: hdr) :: chunks ->
+  regions_of_gff_text (FastaLayout.render lines) =
+  bind (codes rs (length genome)) (fun inter => Ok (TopK.ssort cregion (fun a b => (cr_start a <? cr_start b)%Z) rs, inter)).
+Proof. exact gff_bytes_to_regions_any_order. Qed.
+Print Assumptions C14_gff_bytes_to_regions_any_order.
